@@ -7,12 +7,13 @@ ASSUME = [
     'a replica fed by the log = the node restarted (replays the durable log); a replica fed by a snapshot = forced raft snapshot followed by a restart',
     'message of death: an entry of type MessageOfDeath carrying the client message id reaches the FSM (what a replay of a marked entry looks like)',
 ]
-RULE = 'all sequences of the given depth over {postA, retryA, pingA (a PING line, which is a message like any other), postB, retryB, postS, retryS (S = a services link whose lines carry a prefix), deathA, snapshot, restart}; oracle after every operation (log entries per client message id == 1, marker == last id, retry answered 200) and delivery exactly once in post order at the end'
+RULE = 'all sequences of the given depth over {postA, retryA, pingA (a PING line, which is a message like any other), postB, retryB, postS, retryS (S = a services link whose lines carry a prefix), deathA, snapshot, foldsnapshot (compaction time far in the future: every entry is folded into the snapshot state), restart}; oracle after every operation (log entries per client message id == 1, marker == last id, retry answered 200) and delivery exactly once in post order at the end'
 
 def prebuild():
     apidrive.build()
 
 def run(tier):
+    os.environ.setdefault('VERIF_BUDGET_S', '300' if tier == 'quick' else '3000')  # a cap that is hit ends the run with exhaustive:false, exit 0
     apidrive.run_seq('C10', tier, 'TestVerifC10', ASSUME, RULE)
 
 def replay(path):
